@@ -8,6 +8,29 @@ _HDR = re.compile(r"^\s*-> (.*?) ?(\d+):(-?\d+)$")
 _BASE: list = []
 
 
+_EXOTIC = re.compile("\r(?!\n)|[\x0b\x0c\x1c\x1d\x1e\x85\u2028\u2029]")
+
+
+def _where_lf(text, p):
+    sol = text.rfind("\n", 0, p) + 1
+    eol = text.find("\n", p)
+    return 1 + text.count("\n", 0, p), p - sol, (text[sol:] if eol == -1 else text[sol:eol])
+
+
+def _where_splitlines(text, p):
+    start = 0
+    lines = text.splitlines(keepends=True)
+    for i, ln in enumerate(lines):
+        if p < start + len(ln):
+            return i + 1, p - start, ln
+        start += len(ln)
+    if lines and lines[-1] != text.splitlines()[-1]:
+        return len(lines) + 1, 0, ""  # after a trailing line break: on the empty last line
+    if lines:
+        return len(lines), p - (start - len(lines[-1])), lines[-1]
+    return 1, 0, ""
+
+
 def column_base():
     """0 or 1: the column error_context() reports for offset 0 of a non-empty one-line text (the base the
     implementation uses); None if it is neither, in which case both bases are tolerated."""
@@ -55,7 +78,22 @@ def check_error(err, call, info) -> list[str]:
             bad("str() did not return a string")
     except Exception as e2:  # noqa: BLE001
         bad(f"rendering raised {type(e2).__name__}: {e2}")
-    if 0 <= p <= len(text):
+    if 0 <= p <= len(text) and _EXOTIC.search(text):
+        # Which characters besides LF / CR LF break lines is not specified (python-pest follows str.splitlines: lone
+        # CR, VT, FF, FS, GS, RS, NEL, LS, PS): for such texts the position must be right under the LF reading OR
+        # under the splitlines reading.
+        readings = [_where_lf(text, p), _where_splitlines(text, p)]
+        try:
+            line, lineno, col = error_context(text, p)
+            base = column_base()
+            ok = any(lineno == wl and (col - wc in ((0, 1) if base is None else (base,))) and line.rstrip() == ws.rstrip()
+                     for wl, wc, ws in readings)
+            if not ok:
+                bad(f"error_context says line {lineno} column {col} {line!r} for offset {p}; neither the LF reading "
+                    f"{readings[0]} nor the splitlines reading {readings[1]} (line, 0-based column, source line)")
+        except Exception as e2:  # noqa: BLE001
+            bad(f"error_context raised {type(e2).__name__}: {e2}")
+    elif 0 <= p <= len(text):
         want_line = 1 + text.count("\n", 0, p)
         sol = text.rfind("\n", 0, p) + 1
         want_col0 = p - sol
